@@ -626,6 +626,27 @@ def stepLive (s : St) (e : Ev) : St × List Out :=
 def step (s : St) (e : Ev) : St × List Out :=
   if isDone s.closing then stepDone s e else stepLive s e
 
+/-! ### an open that completes later -/
+
+/-- an `_open_connection` call started earlier (`Recon.attempting`: the routine of `o` is inside it) completes NOW, before
+CONNECT_TIMEOUT: with a transport (`.ok`), or by raising (`.err`); `close()` may have been called between the start of the
+call and its completion.  Not a constructor of `Ev` yet: the deterministic scheduler of the harness lets a held open run into
+its time-out (`Timer.openTO`), the implementation-only harness sections `held_open_variant` / `late_open_variant` complete
+it at every loop iteration of close().  `Reach1` (Proofs/ConnClean.lean) is reachability with this move added to the
+machine's events; `C12.done_clean_open` is the close invariant over it. -/
+def openDone (s : St) (r : OpenRes) : St × List Out :=
+  if isDone s.closing then (s, []) else
+  match s.recon, r with
+  | .attempting _ _, .ok dm cm => establish { s with recon := .idle } dm cm
+  | .attempting _ o, .err => openFailed { s with recon := .idle } o
+  | _, _ => (s, [])
+
+/-- run a list of moves: an event of the machine, or the completion of a pending open -/
+def run1 (s : St) : List (Ev ⊕ OpenRes) → St
+  | [] => s
+  | .inl e :: ms => run1 (step s e).1 ms
+  | .inr r :: ms => run1 (openDone s r).1 ms
+
 /-- run a list of micro events; outputs are stamped with the time at which they were emitted -/
 def run (s : St) : List Ev → St × List (Nat × Out)
   | [] => (s, [])
